@@ -287,21 +287,31 @@ def _seq_nullable(items):
     return True
 
 
+def _run_of_inner_repeat(body):
+    """the sequence can match as nothing but a run of one unbounded repeat it contains (directly, or through one of the
+    alternatives of a branch) while all its other items match the empty string"""
+    body = _flat(body)
+    for i, (op, av) in enumerate(body):
+        rest = body[:i] + body[i + 1:]
+        if not _seq_nullable(rest):
+            continue
+        if _unbounded(op, av):
+            return True
+        if op is sre_constants.BRANCH and any(_run_of_inner_repeat(alt) for alt in av[1]):
+            return True
+    return False
+
+
 def exponential_repeats(parsed):
     """Unbounded repeats whose body contains an unbounded repeat while everything else in the body can match the
-    empty string - `(?:X+ Y*)*`, `(X*)*`, `(X+)+`: a run of X can be cut into body matches in exponentially many ways,
-    and a backtracking matcher tries them all when the overall match fails (the lexer hangs on a long unterminated
-    literal).  Returns descriptions of the offending sub-expressions (sufficient condition, not a decision of
-    ambiguity in general)."""
+    empty string - `(?:X+ Y*)*`, `(X*)*`, `(X+)+`, `(?:X*|YY)*`: a run of X can be cut into body matches in
+    exponentially many ways, and a backtracking matcher tries them all when the overall match fails (the lexer hangs
+    on a long unterminated literal).  Returns descriptions of the offending sub-expressions (sufficient condition, not
+    a decision of ambiguity in general)."""
     out = []
     for op, av in _walk(parsed):
         if not _unbounded(op, av):
             continue
-        body = _flat(av[2])
-        inner = [(i, x) for i, x in enumerate(body) if _unbounded(*x)]
-        for i, (iop, iav) in inner:
-            rest = body[:i] + body[i + 1:]
-            if _seq_nullable(rest):
-                out.append('an unbounded repeat inside an unbounded repeat whose other parts may be empty')
-                break
+        if _run_of_inner_repeat(av[2]):
+            out.append('an unbounded repeat inside an unbounded repeat whose other parts may be empty')
     return out
